@@ -337,11 +337,17 @@ def tick_amounts(t, i):
     return sorted({1, i - 1, i, i + 1, t - 1, t, t + 1, t + i})
 
 
+_tick_n = [0]
+
+
 def http_tick(rng, place, t, i, adv, active):
     """one placement of the cleaner tick; active: the connection had a completed Read at time 0"""
-    s = Script('http', 'http tick %s T=%d I=%d adv=%d active=%s' % (place, t, i, adv, active), timeout_s=t, interval_s=i)
+    # (addresses are whatever the application's source-to-address function returns: every third scenario uses one with
+    # upper-case letters, and goes through two more sweeps at the end - a closed connection is gone, not closed again)
+    _tick_n[0] += 1
+    src = ('s1', 'Edge-Gateway-7.local:8080', 's1', 'S1')[_tick_n[0] % 4]
+    s = Script('http', 'http tick %s T=%d I=%d adv=%d active=%s src=%s' % (place, t, i, adv, active, src), timeout_s=t, interval_s=i)
     g = ValGen(rng)
-    src = 's1'
     a = '@' + src
 
     def deliver():
@@ -401,6 +407,13 @@ def http_tick(rng, place, t, i, adv, active):
     s.op('hs', shape='val', v=hval(g, src, small=True))
     s.op('r', addr=a)
     s.ctl('q')
+    if src != 's1':
+        for _ in range(2):          # idle until the cleaner has swept twice more, then the peer comes back
+            s.ctl('tick', s=t + i + 1)
+            s.ctl('q')
+        s.op('hs', shape='val', v=hval(g, src, small=True))
+        s.op('r', addr=a)
+        s.ctl('q')
     return s.done()
 
 
